@@ -76,7 +76,9 @@ theorem run_frozen_min (σ : Sig F) (ops : List (Op F V)) :
       | mode m => simp [Op.isReapplied] at hr'
       | setOpt g v =>
         have hp : (σ.kind g).persisted = true := by simpa [Op.isReapplied] using hr'
-        refine ⟨fun f hf => ?_, h.training⟩
+        have htr : (step σ a (Op.setOpt g v)).training = b.training := by
+          simp only [step]; split <;> exact h.training
+        refine ⟨fun f hf => ?_, htr⟩
         have hfg : f ≠ g := by
           intro e; subst e
           rw [frozen_not_persisted' hf] at hp; cases hp
